@@ -535,6 +535,19 @@ pub fn random_abstract(rng: &mut Rng, size: usize, break_links: bool) -> Value {
             }
         }
     }
+    // the windows of a wall need not be neighbours in the list, nor the walls of a space
+    if rng.chance(1, 2) {
+        for i in (1..windows.len()).rev() {
+            let j = rng.below(i + 1);
+            windows.swap(i, j);
+        }
+    }
+    if rng.chance(1, 3) {
+        for i in (1..walls.len()).rev() {
+            let j = rng.below(i + 1);
+            walls.swap(i, j);
+        }
+    }
     let tbkinds = ["ROOF", "BALCONY", "CORNER", "INTERMEDIATEFLOOR", "INTERNALWALL", "GROUNDFLOOR", "PILLAR", "WINDOW", "GENERIC"];
     let tbs: Vec<Value> = (0..rng.below(6))
         .map(|_| {
@@ -545,15 +558,15 @@ pub fn random_abstract(rng: &mut Rng, size: usize, break_links: bool) -> Value {
         .collect();
     let ovw: Vec<Value> = walls
         .iter()
-        .filter_map(|w| if rng.chance(1, 5) { Some(json!({"id": w["id"], "u": 100 * rng.range(10, 300)})) } else { None })
+        .filter_map(|w| if rng.chance(1, 5) { Some(json!({"id": w["id"], "u": *rng.pick(&[0i64, 1000, 3500, 12000, 30000])})) } else { None })
         .collect();
     let ovv: Vec<Value> = windows
         .iter()
         .filter_map(|w| if rng.chance(1, 4) { Some(json!({"id": w["id"], "u": if rng.chance(1, 2) { 100 * rng.range(80, 500) } else { -1 },
-            "fsh": if rng.chance(1, 2) { 100 * rng.range(10, 100) } else { -1 }})) } else { None })
+            "fsh": if rng.chance(1, 2) { *rng.pick(&[0i64, 1000, 4500, 7300, 10000]) } else { -1 }})) } else { None })
         .collect();
     json!({
-        "meta": {"new": rng.chance(1, 2), "n50t": if rng.chance(1, 3) { 100 * rng.range(50, 900) } else { -1 },
+        "meta": {"new": rng.chance(1, 2), "n50t": if rng.chance(1, 3) { *rng.pick(&[100i64, 1000, 6000, 20000, 53200, 90000]) } else { -1 },
                  "gvent": if rng.chance(1, 2) { 10000 * rng.range(10, 200) } else { -1 }, "zone": *rng.pick(&zones)},
         "spaces": sps.iter().map(|&s| json!({"id": s, "inside": !rng.chance(1, 4), "kind": *rng.pick(&["C", "C", "U", "N"]),
             "mult": *rng.pick(&[100i64, 100, 200, 300]), "h": 1000 * rng.range(22, 40),
@@ -563,10 +576,10 @@ pub fn random_abstract(rng: &mut Rng, size: usize, break_links: bool) -> Value {
             "mats": (0..n).map(|_| brkp(rng, &mats[..nmat])).collect::<Vec<_>>(),
             "es": (0..n).map(|_| 100 * rng.range(1, 30)).collect::<Vec<_>>()}) }).collect::<Vec<_>>(),
         "wincons": vcs.iter().map(|&c| json!({"id": c, "glass": brkp(rng, &glasses[..1]), "frame": brkp(rng, &frames[..1]),
-            "c100": 100 * *rng.pick(&[3i64, 9, 27, 50]), "ff": 500 * rng.range(0, 10), "du": 100 * rng.range(0, 3),
-            "gsh": if rng.chance(1, 2) { 100 * rng.range(5, 60) } else { -1 }})).collect::<Vec<_>>(),
+            "c100": 100 * *rng.pick(&[0i64, 3, 9, 27, 50, 100]), "ff": *rng.pick(&[0i64, 0, 500, 1000, 1500, 2000, 2500, 4500, 10000]), "du": 100 * *rng.pick(&[0i64, 0, 1, 2, 10, 50]),
+            "gsh": if rng.chance(1, 2) { *rng.pick(&[0i64, 500, 1200, 3500, 6000, 10000]) } else { -1 }})).collect::<Vec<_>>(),
         "materials": mats.iter().map(|&c| if rng.chance(1, 4) { json!({"id": c, "r": 100 * rng.range(5, 300)}) } else { json!({"id": c, "lambda": 100 * rng.range(3, 250)}) }).collect::<Vec<_>>(),
-        "glasses": glasses.iter().map(|&c| json!({"id": c, "u": 1000 * rng.range(6, 57), "g": 100 * rng.range(20, 85)})).collect::<Vec<_>>(),
+        "glasses": glasses.iter().map(|&c| json!({"id": c, "u": 1000 * rng.range(6, 57), "g": *rng.pick(&[0i64, 2000, 4200, 6500, 8500, 10000])})).collect::<Vec<_>>(),
         "frames": frames.iter().map(|&c| json!({"id": c, "u": 1000 * rng.range(10, 57)})).collect::<Vec<_>>(),
         "loads": loads.iter().map(|&c| json!({"id": c, "people": brko(rng, &years[..2]), "equip": brko(rng, &years[..2]), "light": brko(rng, &years[..2])})).collect::<Vec<_>>(),
         "therms": therms.iter().map(|&c| json!({"id": c, "tmax": brko(rng, &years[..2]), "tmin": brko(rng, &years[..2])})).collect::<Vec<_>>(),
